@@ -151,9 +151,9 @@ func (r *Run) memEvent(kind, detail string) {
 		return
 	}
 	r.flush()
-	var vec []uint64
-	if r.sol.CheckSat() == Sat {
-		vec, _ = r.model()
+	vec, ok := r.witness("heap-typing")
+	if !ok {
+		return
 	}
 	r.addFinding("heap-typing", kind, detail, vec)
 }
@@ -196,9 +196,9 @@ func (r *Run) monitorWrite(p Ptr) {
 		return
 	}
 	r.flush()
-	var vec []uint64
-	if r.sol.CheckSat() == Sat {
-		vec, _ = r.model()
+	vec, ok := r.witness("shared-write")
+	if !ok {
+		return
 	}
 	r.addFinding("shared-write", "store into shared object without its lock", p.String(), vec)
 }
